@@ -699,11 +699,19 @@ class BaseNodeVisitor(ast.NodeVisitor):
                     ignore = f"{ignore_comment}[{error_code.name}]"
                 else:
                     ignore = ignore_comment
-                replacement = Replacement(
-                    [lineno],
-                    ["{}{}\n".format(" " * indentation, ignore), this_line],
-                    str(e),
-                )
+                if all(line.startswith("#") for line in lines[: lineno - 1]):
+                    # An own-line comment placed here would be part of the leading
+                    # comment block and be read as a file-level ignore; use a
+                    # trailing comment instead.
+                    replacement = Replacement(
+                        [lineno], [f"{this_line.rstrip()}  {ignore}\n"], str(e)
+                    )
+                else:
+                    replacement = Replacement(
+                        [lineno],
+                        ["{}{}\n".format(" " * indentation, ignore), this_line],
+                        str(e),
+                    )
             else:
                 if replacement is not None:
                     replacement.error_str = str(e)
